@@ -1,7 +1,16 @@
 """C08 - arrays are shared references, copies are independent, and never cyclic."""
 import json
 from hypothesis import strategies as st
+import math
 from engine.driver import Result, viol
+
+
+def _ridx(x):
+    return int(math.floor(x + 0.5))
+
+
+def _nidx(x):
+    return "%d" % x if x == int(x) else repr(float(x))
 
 ID = "C08"
 LEVEL = "exploration"
@@ -15,8 +24,8 @@ RULE = ("cases = histories of <=25 operations over 4 array variables and 2 hashm
         "or the step is a cycle attempt, or an index is out of range; distinct = SHA-1 of the history")
 LEVEL_TEXT = ("Exploration with a reference heap: after each operation all variables must render exactly as the model heap (aliases see the change, "
               "copies do not), refused operations must leave everything unchanged and emit a diagnostic, and no value may become cyclic.")
-LEVEL_NOTE = ("Trusted: the Python heap model in this file (set grows with nils; negative / too large indices rejected; deleteRange as pinned by "
-              "tests/sqf/deleteRange.sqf), the depth-limited structural read-back in runner.cpp, Hypothesis. Fractional indices and huge sizes are C09's.")
+LEVEL_NOTE = ("Trusted: the Python heap model in this file (set grows with nils; negative / too large indices rejected; deleteRange [from, count] as documented; "
+              "tests/sqf/deleteRange.sqf agrees), the depth-limited structural read-back in runner.cpp, Hypothesis. Fractional indices and huge sizes are C09's.")
 ASSUMPTIONS = ["each operation is run as its own script so that an error-level diagnostic does not end the history",
                "deleteRange is only generated with 0 <= from < size (other shapes are C09's subject)"]
 SIZES = {"quick": dict(budget_s=45, batch=60), "thorough": dict(budget_s=600, batch=150)}
@@ -38,6 +47,8 @@ def _history(draw, max_ops=25):
     hi = st.integers(0, NH - 1)
     small = st.integers(0, 5)
     idx = st.integers(-2, 7)
+    # an index is rounded to the nearest integer, for writing as for reading (no ties generated): -0.6 is -1 (rejected), 0.6 is 1
+    fidx = st.one_of(idx, idx, idx, st.sampled_from([0.6, -0.6, 1.4, 2.6, -0.4, 0.4, 3.7]))
     val = 10
     for _ in range(n):
         k = draw(st.sampled_from(["new", "alias", "alias", "pushv", "pushv", "pushn", "pushn", "pushu", "set", "set", "setv", "append", "appendlit",
@@ -55,7 +66,7 @@ def _history(draw, max_ops=25):
         elif k == "pushu":
             ops.append(["pushu", draw(vi), draw(st.one_of(small.map(lambda x: ["n", x]), vi.map(lambda j: ["v", j])))])
         elif k == "set":
-            ops.append(["set", draw(vi), draw(idx), ["n", val]])
+            ops.append(["set", draw(vi), draw(fidx), ["n", val]])
         elif k == "setv":
             ops.append(["set", draw(vi), draw(idx), ["v", draw(vi)]])
         elif k == "append":
@@ -63,7 +74,7 @@ def _history(draw, max_ops=25):
         elif k == "appendlit":
             ops.append(["appendlit", draw(vi), draw(vi)])
         elif k == "delat":
-            ops.append(["delat", draw(vi), draw(idx)])
+            ops.append(["delat", draw(vi), draw(fidx)])
         elif k == "delrange":
             ops.append(["delrange", draw(vi), draw(st.integers(0, 5)), draw(st.integers(-1, 8))])
         elif k == "resize":
@@ -232,7 +243,9 @@ class Heap:
                 V[op[1]].append(x)
             return "V%d pushBackUnique %s;" % (op[1], val_sqf(op[2])), refused, labs
         if k == "set":
-            a, i, x = V[op[1]], op[2], val_of(op[3])
+            a, i, x = V[op[1]], _ridx(op[2]), val_of(op[3])
+            if i != op[2]:
+                labs.add("fractional_index")
             if i < 0:
                 labs.add("index_out_of_range"); refused = True
             elif isinstance(x, list) and reaches(x, a):
@@ -244,7 +257,7 @@ class Heap:
                     labs.add("set_grows")
                     a.extend([None] * (i + 1 - len(a)))
                 a[i] = x
-            return "V%d set [%d, %s];" % (op[1], i, val_sqf(op[3])), refused, labs
+            return "V%d set [%s, %s];" % (op[1], _nidx(op[2]), val_sqf(op[3])), refused, labs
         if k == "append":
             a, b = V[op[1]], V[op[2]]
             if any(isinstance(e, (list, HM)) and reaches(e, a) for e in b):
@@ -283,25 +296,27 @@ class Heap:
             n = HM(); n.d = dict(H[op[2]].d); H[op[1]] = n
             return "H%d = +H%d;" % (op[1], op[2]), False, labs
         if k == "delat":
-            a, i = V[op[1]], op[2]
+            a, i = V[op[1]], _ridx(op[2])
+            if i != op[2]:
+                labs.add("fractional_index")
             if paths_to(self.allvars(), a) >= 2:
                 labs.add("mutate_shared")
             if i < 0 or i >= len(a):
                 labs.add("index_out_of_range"); refused = True
             else:
                 del a[i]
-            return "V%d deleteAt %d;" % (op[1], i), refused, labs
+            return "V%d deleteAt %s;" % (op[1], _nidx(op[2])), refused, labs
         if k == "delrange":
             a, f, t = V[op[1]], op[2], op[3]
             if not (0 <= f < len(a)):
                 return None, False, labs          # shape not generated (C09)
             if paths_to(self.allvars(), a) >= 2:
                 labs.add("mutate_shared")
-            if f > t:
-                t = f
-            if t >= len(a):
-                t = len(a) - 1
-            del a[f:t + 1]
+            # array deleteRange [from, count] (BIKI); a negative count is rejected like a negative index
+            if t < 0:
+                labs.add("index_out_of_range")
+                return "V%d deleteRange [%d, %d];" % (op[1], op[2], op[3]), True, labs
+            del a[f:f + t]
             return "V%d deleteRange [%d, %d];" % (op[1], op[2], op[3]), False, labs
         if k == "resize":
             a, n = V[op[1]], op[2]
